@@ -1335,6 +1335,8 @@ def call_method(it, v, name, args, kwargs):
             return env.opaque_method(it, v, name, args, kwargs)
         if v.tag == 'val' and v.term.sort() == _seq.Val and not kwargs and name == 'get' and 1 <= len(args) <= 2 and is_str(args[0]):
             # dict.get on a decoded document: the value under the key if the document has it, else the default
+            ctx.assumed_models.add("values of an opaque document (registry entry, decoded JSON): key presence and the value under a key are "
+                                   "functions of the document (v_has / v_get); d.get(k, default) and == with a string or integer are stated over them")
             if ctx.decide(_seq.v_has(v.term, str_term(args[0]))):
                 return OpaqueVal(_seq.v_get(v.term, str_term(args[0])), 'val')
             return args[1] if len(args) == 2 else None
@@ -1612,6 +1614,8 @@ def bytes_find(it, b, pat):
     def match_at(p):
         return z3.And(*[b.at(p + j) == pat[j] for j in range(k)]) if k else z3.BoolVal(True)
     if getattr(ctx, 'find_minimality', False):
+        ctx.assumed_models.add("bytes.find(p): the least offset r with data[r:r+len(p)] == p inside the data, -1 iff there is none "
+                               "(quantified; assumed equal to CPython's bytes.find, cross-checked by the bounded companion)")
         q = z3.Int('q!find!%d' % ctx.n_fresh)
         none_before = z3.ForAll([q], z3.Implies(z3.And(q >= 0, q < r, q + k <= n), z3.Not(match_at(q))))
         none_at_all = z3.ForAll([q], z3.Implies(z3.And(q >= 0, q + k <= n), z3.Not(match_at(q))))
